@@ -136,7 +136,11 @@ def _deductive_task(arg) -> dict:
                 'outcomes': rep.outcomes, 'gen_seconds': round(rep.seconds, 2), 'seconds': round(time.time() - t0, 2),
                 'error': None, 'scenarios': list(rep.scenarios)}
     except Exception as ex:  # noqa: BLE001
-        return {'contract': f'{pid}#{idx}', 'scenario': scen, 'shard': shard, 'error': f'{type(ex).__name__}: {ex}\n{traceback.format_exc()}', 'obligations': [],
+        try:
+            qn = load_property(pid).contracts[idx].qualname
+        except Exception:  # noqa: BLE001
+            qn = f'{pid}#{idx}'
+        return {'contract': qn, 'scenario': scen, 'shard': shard, 'error': f'{type(ex).__name__}: {ex}\n{traceback.format_exc()}', 'obligations': [],
                 'out_of_subset': [], 'assumptions': [], 'covers': [], 'outcomes': {}, 'paths': 0, 'sha256': '', 'seconds': 0,
                 'gen_seconds': 0, 'scenarios': []}
 
@@ -256,12 +260,40 @@ def main(argv=None) -> int:
         ded = rd.get()
         bnd = rb.get()
 
+    raw_ded = ded
     ded = merge_shards(ded)
     exit_code = 0
     lines: List[str] = []
     violations: List[Tuple[str, str]] = []
     known_printed = set()
-    checker_errors = [r['error'] for r in ded + bnd if r.get('error')]
+    baseline = load_baseline(pid)
+    cur_tree = tree_hash()
+    checker_errors = []
+    for r in bnd:
+        if r.get('error'):
+            checker_errors.append(r['error'])
+    # a contract that can no longer be applied to the function (the generator raised while walking the changed source, e.g. a loop
+    # without a loop contract): on a tree that differs from the baseline tree, every obligation of that contract/scenario that was
+    # discharged on the baseline is lost - reported as such (DESIGN 7.3); on the baseline tree itself it is a checker failure
+    for r in raw_ded:
+        if not r.get('error'):
+            continue
+        lost = []
+        if baseline is not None and baseline['tree'] != cur_tree:
+            pref = f"{r['contract']}|{r['scenario']}|"
+            lost = [k for k in baseline['discharged'] if k.startswith(pref)]
+        if lost:
+            path = write_replay(pid, f"{r['contract']}-contract-does-not-apply", {
+                'property': pid, 'obligation': f"{r['contract']}/contract-applies [{r['scenario']}]", 'contract': r['contract'], 'scenario': r['scenario'],
+                'reason': 'the contract (pre/postcondition, loop contracts, call contracts) could not be applied to the current source of the function; '
+                          'the obligations listed were discharged on the baseline tree and cannot be generated on this one',
+                'lost_obligations': lost, 'baseline_tree': baseline['tree'], 'current_tree': cur_tree, 'generator_output': r['error']})
+            violations.append((f"{r['contract']}/contract-applies", path))
+            lines.append(f"VIOLATION property={pid} replay={path} no-failing-input-found")
+            lines.append(f"  obligation {r['contract']}/contract-applies [{r['scenario']}]: {len(lost)} obligations discharged on the baseline tree cannot be generated "
+                         f"from the current source ({r['error'].splitlines()[0][:160]})")
+        else:
+            checker_errors.append(r['error'])
     for e in checker_errors:
         lines.append('CHECKER-ERROR ' + e)
 
@@ -331,8 +363,6 @@ def main(argv=None) -> int:
     # open deductive obligations: concretise on the real code, else definite-sat rule, else undecided
     undecided = []
     used_sigs = set()
-    baseline = load_baseline(pid)
-    cur_tree = tree_hash()
     for o in open_obs:
         prev = prop.expected_discharged(o) if hasattr(prop, 'expected_discharged') else True
         conc = None
@@ -473,6 +503,22 @@ def main(argv=None) -> int:
             json.dump({'property': pid, 'tree': cur_tree, 'discharged': sorted(k for k, v in keys.items() if v)}, f, indent=0)
         print(f'baseline updated: {sum(1 for v in keys.values() if v)} obligation keys discharged on tree {cur_tree[:12]}')
 
+    # violations with an input replayed on the real code are printed before those without one
+    blocks, rest = [], []
+    i = 0
+    while i < len(lines):
+        if lines[i].startswith('VIOLATION '):
+            blk = [lines[i]]
+            if i + 1 < len(lines) and lines[i + 1].startswith('  '):
+                blk.append(lines[i + 1])
+                i += 1
+            blocks.append(blk)
+        else:
+            rest.append(lines[i])
+        i += 1
+    blocks.sort(key=lambda b: b[0].endswith('no-failing-input-found'))
+    lines = [ln for ln in rest if not ln.startswith(('OUT-OF-SUBSET', 'UNDECIDED'))] + [ln for b in blocks for ln in b] \
+        + [ln for ln in rest if ln.startswith(('OUT-OF-SUBSET', 'UNDECIDED'))]
     # one VIOLATION line per distinct obligation / clause (at most 8), the rest summarised
     shown, seen_names, extra = [], set(), 0
     i = 0
